@@ -306,36 +306,52 @@ class Judge:
     def __init__(self, res, kf):
         self.res, self.kf = res, kf
         self.nviol = 0
+        self.caps = {}
         self.repaired = {}
 
     def violate(self, **kw):
         self.nviol += 1
-        if self.nviol <= 4:
+        key = "oracle" if kw.get("failing_input", True) else "other"
+        self.caps[key] = self.caps.get(key, 0) + 1
+        if self.caps[key] <= 3:
             self.res.violate(**kw)
 
     def history(self, layer, entry, case, ops, mrec, impl, script_text):
-        """impl: list (per op) of (outcome or None if unobserved, state or None)."""
+        """impl: list (per op) of (outcome or None if unobserved, state or None).
+        A state disagreement (L1b) does not end the history: the operations that follow are still
+        compared with the specification, so that the replay names an input on which the property's
+        oracle fails; only if none does is the disagreement itself reported (no failing input)."""
+        pending = None
         for k, op in enumerate(ops):
-            if k >= len(mrec):
+            if k >= len(mrec) or k >= len(impl):
                 break
             m = mrec[k]
-            if k >= len(impl):
-                break
             io, ist = impl[k]
             ctx = dict(layer=layer, entry=entry, case=case, op_index=k, op=op.text,
-                       input=script_text, model=m["model"], spec=m["spec"])
+                       input=(script_text if layer == "L2" else script_text_upto(ops, k)), model=m["model"], spec=m["spec"])
             if m["wf"] != "wf":
                 self.violate(kind="generator", failing_input=False, note="generated operation outside wf_op", **ctx)
                 return
+            if pending is not None:
+                # model state no longer trustworthy as a predictor; the specification of a probe still is
+                if m["known"] == "-" and op.kind in ("ref", "child") and io is not None and io != m["spec"]:
+                    self.violate(kind="oracle", failing_input=True, expected=m["spec"], observed=io,
+                                 note="after the state of the implementation left the model's (%s at operation %d: %s) "
+                                      "this observation differs from the specified one"
+                                      % (pending["op"], pending["op_index"], pending["impl_state"]), **ctx)
+                    return
+                continue
             if m["known"] != "-":
                 cls = m["known"]
                 if io is None:
                     if m["model"] == "PANIC":
                         return
                     continue
-                if io == m["model"] and (ist is None or ist == m["state"]):
+                if io == m["model"] and (ist is None or m["state"] is None or ist == m["state"]):
                     if cls in self.kf:
-                        self.res.known(cls, "class=%s input=%r observed=%s specified=%s" % (cls, script_text_upto(ops, k), io, m["spec"]))
+                        self.res.known(cls, "class=%s input=%r observed=%s specified=%s%s" % (
+                            cls, script_text_upto(ops, k), io, m["spec"],
+                            (" state-after=" + ist) if (ist and io == m["spec"]) else ""))
                     else:
                         self.violate(kind="oracle", failing_input=True, expected=m["spec"], observed=io,
                                      note="deviation class %s is not listed in known_findings.txt" % cls, **ctx)
@@ -359,12 +375,15 @@ class Judge:
                 self.violate(kind="oracle", failing_input=True, expected=m["spec"], observed=io,
                              note="the implementation's observation differs from the specified one", **ctx)
                 return
-            if ist is not None and ist != m["state"]:
-                self.violate(kind="correspondence", failing_input=False, model_state=m["state"], impl_state=ist,
-                             note="state after the operation differs between model and implementation", **ctx)
-                return
+            if ist is not None and m["state"] is not None and ist != m["state"]:
+                pending = dict(ctx, kind="correspondence", failing_input=False, model_state=m["state"], impl_state=ist,
+                               note="state after the operation differs between model and implementation; no later "
+                                    "observation of this history contradicted the specification")
+                continue
             if m["model"] == "PANIC":
                 return
+        if pending is not None:
+            self.violate(**pending)
 
 
 def script_text_upto(ops, k):
